@@ -31,13 +31,13 @@ def design_checks(ck, tier):
 
 
 def generate(ck, tier):
-    p1 = os.path.join(ck.dir, "sched_b1.ndjson")
+    p1 = os.path.join(ck.dir, f"sched_b1_{tier}_{os.getpid()}.ndjson")
     res = sc.tlc_mc(ck, "fifo_b1", mode="fifo", budget=1, fair=True, msgs="MsgsA12", init_a="{14}", init_b="{0}",
                     sched_sink=p1, timeout=600)
     vlib.tlc_ok(res, "fifo budget 1")
     ck.add_tlc(res, "fifo/budget1 (single faults)")
     singles = sc.schedules_from(p1)
-    p2 = os.path.join(ck.dir, "sched_b2.ndjson")
+    p2 = os.path.join(ck.dir, f"sched_b2_{tier}_{os.getpid()}.ndjson")
     res = sc.tlc_mc(ck, "fifo_b2", mode="fifo", budget=2, fair=False,
                     msgs="MsgsA12" if tier == "thorough" else "MsgsA2", init_a="{14}", init_b="{0}",
                     sched_sink=p2, timeout=2400 if tier == "thorough" else 600)
@@ -186,6 +186,7 @@ def run(tier):
         "sampled configurations / schedules (seeded by VERIF_SEED); not exhaustive",
         "trusted: TLC, the proxy's record decryption, SCTP reader and CRC32c, the event hooks (add-only, cfg rustrtc_verif)",
     ]
+    sc.cleanup(ck)
     ck.finish()
 
 
